@@ -180,6 +180,7 @@ def rs_self_test(run):
 # ------------------------------------------------------------------ C10
 VALID_BODY = r'''rule "%(n)s" "%(d)s" salience %(s)d
 begin
+  echo(@name, @sal, @desc, 2)
   // a comment
   x = 1 + 2 * 3
   y = (x - 1) / 2
@@ -287,7 +288,7 @@ def check_c10(run):
 
     def add(text, cls, declared=None):
         s = {"id": len(sessions) + 1, "kind": "compile", "class": cls, "base": base, "declared": declared or [],
-             "selffirst": rng.random() < 0.35}
+             "selffirst": rng.random() < 0.35, "cleared": rng.random() < 0.25}
         if isinstance(text, bytes):
             try:
                 s["text"] = text.decode("utf-8")
@@ -302,8 +303,8 @@ def check_c10(run):
 
     # generator-built classes
     valids = []
-    for i in range(6 if quick else 40):
-        k = rng.randint(1, 3)
+    for i in range(40 if quick else 300):
+        k = rng.randint(1, 4)
         names = rng.sample(["a", "b", "c", "d", "e", "7", "x_1"], k)
         decl = [{"name": n, "sal": rng.choice([-5, 0, 2, 2, 9]), "desc": "new-" + n, "ver": 2} for n in names]
         t = valid_text(decl)
@@ -313,7 +314,7 @@ def check_c10(run):
         add(dup, "dup")
     for b in ["", " ", "\n\t  \n", "   \r\n"]:
         add(b, "blank")
-    small = 'rule "d" "new-d" salience 1 begin\n  x = 1 + 2\n  if x > 2 { return x }\nend\n'
+    small = 'rule "d" "new-d" salience 1 begin\n  echo(@name, @sal, @desc, 2)\n  x = 1 + 2\n  if x > 2 { return x }\nend\n'
     add(small, "valid", [{"name": "d", "sal": 1, "desc": "new-d", "ver": 2}])
     # lexer-level oddities outside and inside strings
     for t in ['rule "b" begin # return 2 end', 'rule "b" "d" begin $ end', 'rule "b" begin x = 1 ~ 2 end', 'rule "b" begin s = "#$~" end',
